@@ -22,6 +22,8 @@ MANIFEST = {
 
 RULE = ("placements: every documented placement (22) x every documented receiver form and every non-receiver (17) x emit/emit_to; "
         "fnshapes: enclosing function with no parameters / only non-handle parameters / only the handle / a local let named app, window or webview (untyped, mut, typed) x receivers that fit (static method chain, clone of it, call().clone(), field of a global, field of a call result, plain call and the static itself which must not count) x attributes/visibility/async/unsafe/const/command-or-not (29 combinations) x rotating placement x emit/emit_to; "
+        "receiver-types: declared TYPE of the emitting receiver (56 declarations: handle types plain / referenced / qualified / with runtime parameter, generic parameter with bound or where clause, impl Trait, dyn Trait, Arc / Box / Rc / State / MutexGuard / Option / Cow wrappers, alias-like and application type names, tuple, let-bound handles from associated calls, struct expressions, copies of typed variables, method results, typed lets, shadowing, leaking block-local bindings) x receiver name app / window / webview (and a non-handle name that must not count) x variable / .clone() x emit / emit_to x rotating placement and payload; also drawn as a function shape in the structured stream; "
+        "unicode-names (judged by the oracle beyond the ASCII name alphabet): 77 non-ASCII characters of 8 classes (letters of 10 scripts, letters with special case mappings, enclosed / circled letters and numbers, symbols and emoji, digits of other scripts, combining marks and joiners, punctuation and spaces) x 10 positions (alone, doubled, leading, trailing, between separators, inside a word, next to a digit), several such names in one module; identifier legality decided per code point (Spec/C12Uni.v); "
         "compositions: every ordered pair of 33 wrappers around one emit (15 documented: method receiver without/with arguments, await, ?, block, if-then, if-else, else-if, match arm expression/block, loop, while, for, let and let-else initialiser in a block; 18 undocumented: parentheses, &, unary, cast, call/method argument, field access, index, closure call, return, break value, macro argument, tuple, closure body, unsafe/async block, condition, scrutinee), 500 (quick) sampled triples, as let initialiser and as expression statement; "
         "mappings: 6 type_mappings sets (primitive targets, one non-primitive target, keys that are Rust primitives, an unrelated key, none) x 13 payload types (mapped names bare / referenced / qualified, unmapped, primitives, nested in Vec / Option / HashMap / tuple) x param / let / alias / struct expression / clone, both modes, through a configuration file (CLI) and through both visitors (library API); expected type computed by the spec with the mapping applied; a quarter of the structured cases carry a mapping; "
         "rawidents: raw identifiers r#type r#match r#final r#async r#in as payload variable (typed parameter, typed let, untyped let, alias, plain-spelled decoy, unbound, struct field) x 4 types x {x,&x,x.clone()}, and as names of the hosting functions; "
@@ -32,7 +34,9 @@ RULE = ("placements: every documented placement (22) x every documented receiver
         "histories: 3 base projects x 13 single edits (payload type at first/middle/last site of a multi-site event, rename, add, remove, move to another file, swap, emit/emit_to, remove all, unchanged) + unchanged re-run x {CLI, build-script entry point}, plus 160 (quick) random histories of 2-4 unforced runs into one output directory, judged after every run against the sources of that run; "
         "a malformed/out-of-domain stream (emit at undocumented positions, heuristic receivers, names outside the alphabet, non-top-level functions) "
         "where only the correspondence is judged. Non-trivial = at least one emit call in the sources; distinct = distinct cases.")
-TRUSTED = ["run histories: a leftover events.ts that a run neither wrote (same inode/mtime/size) nor re-exports is not counted as that run's events module",
+TRUSTED = ["Spec/C12Uni.v + Spec/C01Wf.v: explicit table of ECMAScript ID_Start / ID_Continue ranges (conservative: a code point outside the listed scripts is rejected); it only matters when a listener identifier contains a non-ASCII byte, which the unchanged tool never prints",
+           "types the tool calls `unknown` (impl Trait, dyn Trait, lifetime arguments) are printed as Rust text and handed to the model as a one-element tuple type (type_name = unknown)",
+           "run histories: a leftover events.ts that a run neither wrote (same inode/mtime/size) nor re-exports is not counted as that run's events module",
            "tools/props/c12_gen.py renders one case both to Rust source and to the model's s-expression (trusted printer)",
            "Spec/TsModule.v + Spec/TsObs.v (extracted) are the reading of the generated TypeScript; Spec/C12Spec.v oracle is the run-time judge",
            "syn parses the Rust source; the model starts from the AST"]
